@@ -72,6 +72,7 @@ func c13BodySchema() gen.S {
 		"any": gen.S{"anyOf": gen.Arr(branch("u1", "g1", "G1", "H1", false), branch("u2", "g2", "G2", "H2", true))},
 		"all": gen.S{"allOf": gen.Arr(gen.S{"type": "object", "properties": gen.S{"p": str("P")}}, gen.S{"type": "object", "properties": gen.S{"q": str("Q")}})},
 		"ro":  gen.S{"type": "string", "readOnly": true, "default": "RO"},
+		"nn":  gen.S{"type": "string", "nullable": true, "default": "NN"},
 	}}
 }
 
@@ -112,6 +113,8 @@ func c13Bodies() []c13body {
 		j("all-partial", gen.S{"all": gen.S{"p": "z"}}),
 		j("ro-sent", gen.S{"ro": "client"}),
 		j("type-violation", gen.S{"n": "str"}),
+		j("explicit-null-for-a-defaulted-nullable-property", gen.S{"nn": nil, "a": "x"}),
+		j("explicit-null-in-a-nested-object", gen.S{"o": gen.S{"y": "z"}, "nn": nil}),
 		{"a-set, Content-Type with charset", "application/json; charset=utf-8", []byte(`{"a":"x"}`)},
 		{"nested-empty, Content-Type with charset", "application/json;charset=UTF-8", []byte(`{"o":{}}`)},
 		{"whitespace-json", "application/json", []byte("{ \"m\" : 4 ,\n  \"a\":\"x\" }")},
